@@ -1,6 +1,7 @@
 //! C29 — drives the real `LruCache` / `ObjectCache` (memory/cache.rs).
 use oxiharness::*;
-use oxidize_pdf::memory::{LruCache, ObjectCache};
+use oxidize_pdf::memory::{LruCache, MemoryManager, ObjectCache};
+use oxidize_pdf::MemoryOptions;
 use oxidize_pdf::objects::ObjectId;
 use oxidize_pdf::parser::PdfObject;
 use std::sync::Arc;
@@ -11,6 +12,10 @@ enum Op {
     Put(u32, i64),
     Clear,
     Len,
+    /// `LruCache::is_empty`
+    IsEmpty,
+    /// `ObjectCache::stats`
+    Stats,
 }
 
 fn parse_ops(s: &str) -> Option<Vec<Op>> {
@@ -23,6 +28,10 @@ fn parse_ops(s: &str) -> Option<Vec<Op>> {
                 Some(Op::Clear)
             } else if t == "l" {
                 Some(Op::Len)
+            } else if t == "e" {
+                Some(Op::IsEmpty)
+            } else if t == "t" {
+                Some(Op::Stats)
             } else if let Some(r) = t.strip_prefix('g') {
                 r.parse().ok().map(Op::Get)
             } else if let Some(r) = t.strip_prefix('p') {
@@ -45,6 +54,8 @@ fn show_ops(ops: &[Op]) -> String {
             Op::Put(k, v) => format!("p{}:{}", k, v),
             Op::Clear => "c".into(),
             Op::Len => "l".into(),
+            Op::IsEmpty => "e".into(),
+            Op::Stats => "t".into(),
         })
         .collect::<Vec<_>>()
         .join(",")
@@ -76,6 +87,8 @@ fn run_seq(cap: usize, ops: &[Op]) -> String {
                 "u".into()
             }
             Op::Len => format!("s{}", c.len()),
+            Op::IsEmpty => format!("b{}", c.is_empty() as u8),
+            Op::Stats => return "bad-request".into(), // no such method on LruCache
         });
     }
     join_outs(outs)
@@ -99,7 +112,20 @@ fn oc_apply(c: &ObjectCache, op: &Op) -> String {
             "u".into()
         }
         Op::Len => format!("s{}", c.stats().size),
+        Op::Stats => {
+            let st = c.stats();
+            format!("t{}:{}", st.size, st.capacity)
+        }
+        Op::IsEmpty => "bad-op".into(), // no such method on ObjectCache
     }
+}
+
+/// one thread, the lock-guarded cache
+fn run_oseq(cache: &ObjectCache, ops: &[Op]) -> String {
+    if ops.iter().any(|o| matches!(o, Op::IsEmpty)) {
+        return "bad-request".into();
+    }
+    join_outs(ops.iter().map(|op| oc_apply(cache, op)).collect())
 }
 
 fn run_conc(cap: usize, threads: Vec<Vec<Op>>, probe: &[Op]) -> String {
@@ -133,6 +159,18 @@ fn run(req: &str) -> String {
             let (Ok(cap), Some(ops)) = (cap.parse::<usize>(), parse_ops(ops)) else { return "bad-request".into() };
             run_seq(cap, &ops)
         }
+        ["oseq", cap, ops] => {
+            let (Ok(cap), Some(ops)) = (cap.parse::<usize>(), parse_ops(ops)) else { return "bad-request".into() };
+            run_oseq(&ObjectCache::new(cap), &ops)
+        }
+        ["mm", n, ops] => {
+            let (Ok(n), Some(ops)) = (n.parse::<usize>(), parse_ops(ops)) else { return "bad-request".into() };
+            let mm = MemoryManager::new(MemoryOptions::default().with_cache_size(n));
+            match mm.cache() {
+                None => "nocache".into(),
+                Some(c) => run_oseq(c, &ops),
+            }
+        }
         ["conc", cap, ths, "#", probe] => {
             let Ok(cap) = cap.parse::<usize>() else { return "bad-request".into() };
             let ths: Option<Vec<Vec<Op>>> = ths.split('|').map(parse_ops).collect();
@@ -140,6 +178,14 @@ fn run(req: &str) -> String {
             run_conc(cap, ths, &probe)
         }
         _ => "bad-request".into(),
+    }
+}
+
+/// `extra`: the read-only operation the cache under test has besides `len`
+fn random_op_x(rng: &mut Rng, keys: u64, extra: Op) -> Op {
+    match rng.below(22) {
+        20 | 21 => extra,
+        _ => random_op(rng, keys),
     }
 }
 
@@ -190,22 +236,71 @@ fn gen(rng: &mut Rng, tier: Tier) -> Vec<Case> {
         let cap = rng.below(7) as usize;
         let keys = 1 + rng.below(10);
         let len = rng.below(60) as usize;
-        let ops: Vec<Op> = (0..len).map(|_| random_op(rng, keys)).collect();
+        let ops: Vec<Op> = (0..len).map(|_| random_op_x(rng, keys, Op::IsEmpty)).collect();
         cases.push(Case::new(format!("seq {} {}", cap, show_ops(&ops)), tags_for(cap, &ops, "rand")));
+    }
+    // (2b) recency-order probes (deterministic, every capacity 2..=6): fill the cache, touch one or
+    // two entries (by `get` or by re-`put`), overflow it with k fresh keys, then look every
+    // original key up — the set that is gone is the k least recently used, so the k = 1..cap-1
+    // requests of one touch pattern together pin the whole recency order.
+    for cap in 2..=6usize {
+        let mut patterns: Vec<Vec<(usize, bool)>> = vec![vec![]];
+        for a in 0..cap {
+            for how in [false, true] {
+                patterns.push(vec![(a, how)]);
+                for b in 0..cap {
+                    if b != a && (cap <= 4 || tier == Tier::Thorough || (a + 2 * b + how as usize) % 3 == 0) {
+                        patterns.push(vec![(a, how), (b, !how)]);
+                        patterns.push(vec![(a, how), (b, how)]);
+                    }
+                }
+            }
+        }
+        for pat in &patterns {
+            for k in 1..cap {
+                let mut ops: Vec<Op> = (0..cap).map(|i| Op::Put(i as u32, 100 + i as i64)).collect();
+                for (j, (key, by_put)) in pat.iter().enumerate() {
+                    ops.push(if *by_put { Op::Put(*key as u32, 200 + j as i64) } else { Op::Get(*key as u32) });
+                }
+                for f in 0..k {
+                    ops.push(Op::Put(50 + f as u32, 300 + f as i64));
+                }
+                ops.push(Op::Len);
+                for i in 0..cap {
+                    ops.push(Op::Get(i as u32));
+                }
+                cases.push(Case::new(format!("seq {} {}", cap, show_ops(&ops)), tags_for(cap, &ops, "order")));
+            }
+        }
+    }
+    // (2c) the lock-guarded cache, single-threaded, with `stats`; and the cache the memory manager
+    // builds (none for cache_size 0)
+    let n_oseq = if tier == Tier::Quick { 600 } else { 10000 };
+    for i in 0..n_oseq {
+        let cap = rng.below(6) as usize;
+        let keys = 1 + rng.below(8);
+        let len = rng.below(40) as usize;
+        let ops: Vec<Op> = (0..len).map(|_| random_op_x(rng, keys, Op::Stats)).collect();
+        if i % 4 == 3 {
+            cases.push(Case::new(format!("mm {} {}", cap, show_ops(&ops)), tags_for(cap, &ops, "mm")));
+        } else {
+            cases.push(Case::new(format!("oseq {} {}", cap, show_ops(&ops)), tags_for(cap, &ops, "oseq")));
+        }
     }
     // (3) concurrent histories on ObjectCache
     let n_conc = if tier == Tier::Quick { 400 } else { 6000 };
     for _ in 0..n_conc {
         let cap = rng.below(4) as usize;
         let nth = 2 + rng.below(2) as usize;
-        let keys = 2 + rng.below(3);
+        // one key only every fifth time: every thread hits the same entry
+        let keys = if rng.chance(1, 5) { 1 } else { 2 + rng.below(3) };
         let ths: Vec<Vec<Op>> = (0..nth)
             .map(|_| {
                 let len = 1 + rng.below(4) as usize;
-                (0..len).map(|_| random_op(rng, keys)).collect()
+                (0..len).map(|_| random_op_x(rng, keys, Op::Stats)).collect()
             })
             .collect();
-        let mut probe = vec![Op::Len];
+        let mut probe = vec![Op::Stats];
         for k in 0..keys {
             probe.push(Op::Get(k as u32));
         }
